@@ -26,7 +26,11 @@ func verifValidID(tag string) string {
 // reserved with the cancel function of the context its handler holds.
 func verifHavocUsed(s *Server) []*verifInflight {
 	var g []*verifInflight
-	n := nondetChoice("ninflight", 3)
+	maxi := 3
+	if thorough() {
+		maxi = 4
+	}
+	n := nondetChoice("ninflight", maxi)
 	for i := 0; i < n; i++ {
 		id := verifValidID("inflight-id")
 		for _, o := range g {
@@ -61,7 +65,11 @@ func Harness_C07_step() {
 	switch nondetChoice("step", 3) {
 	case 0:
 		// a whole batch arrives, is dispatched, its handlers return, its reply is sent
-		n := 1 + nondetChoice("n", 2)
+		maxb := 2
+		if thorough() {
+			maxb = 3
+		}
+		n := 1 + nondetChoice("n", maxb)
 		var batch jmessages
 		var ids []string
 		for i := 0; i < n; i++ {
